@@ -20,6 +20,16 @@ Once per run a chain whose first block holds very large values (Sierra program, 
 calldata and one event payload of 140 000 felts each - above the CBOR library's default array limit)
 goes through the codec round trips and the full sweep on memory and pebblev2, both state backends.
 L1 handler transactions come with a nonce, with a zero nonce and in the legacy nonce-less form.
+The chain is not append-only: the specification has RevertHead and replacement blocks that re-include
+reverted transactions at other indices / heights, drop some, add fresh ones (exhaustive for chains of
+<= 2 blocks x <= 2 reverts and <= 3 single-transaction blocks x <= 3 reverts; invariants Gone and
+IndexesExact: what a reorg dropped is NOT FOUND, hash of a replaced block included). Every generated
+behaviour contains three RevertHead (depth 1..3, also down to the empty chain, restarts in between),
+with the full sweep after every write except after some reverts (no read between the revert and the
+next store) - so reads are warm before a reorg and an answer must follow the block that is NOW at a
+height / NOW holds a hash, through blockchain.Blockchain and the core readers under it. Reader-level
+memos (a cache of any lookup family that outlives a write) and a RevertHead that keeps the hash
+indexes are switched on one at a time as self-tests (TLC must object); the repaired memo is verified.
 """
 import json
 import vlib
@@ -37,12 +47,26 @@ def run(ctx):
     thorough = not ctx.quick()
     ctx.tlc_check("chain", "MCBlockBlob.tla", "BlockBlob_quick.cfg", timeout=600)
     ctx.tlc_check("chain", "MCBlockBlob.tla", "BlockBlob_chain.cfg", timeout=600)
-    for name in ("lastend", "txsection", "hashindex"):
+    # the chain is not append-only: RevertHead and replacement blocks re-including reverted transactions
+    ctx.tlc_check("chain", "MCBlockBlob.tla", "BlockBlob_reorg.cfg", timeout=600)
+    ctx.tlc_check("chain", "MCBlockBlob.tla", "BlockBlob_reorg_deep.cfg", timeout=600)
+    selftests = ["lastend", "txsection", "hashindex", "revertindex", "memo_loc", "memo_num", "memo_l1"]
+    if thorough:
+        selftests += ["memo_hdr", "memo_blob", "memo_su"]
+    for name in selftests:
         r = ctx.tlc_check("chain", "MCBlockBlob.tla", "BlockBlob_self_%s.cfg" % name, timeout=300,
                           expect_violation=True, label="selftest:" + name)
         if r["ok"] or not r["violated"]:
             raise vlib.Broken("self-test %s: TLC did not object to the seeded slip" % name)
-    ctx.coverage["spec_selftests_caught"] = 3
+    ctx.coverage["spec_selftests_caught"] = len(selftests)
+    # the repaired design of a reader-level memo (dropped by every write) satisfies every property
+    ctx.tlc_check("chain", "MCBlockBlob.tla", "BlockBlob_memo_purged_loc.cfg", timeout=600)
+    if thorough:
+        for fam in ("num", "hdr", "blob", "su", "l1"):
+            ctx.tlc_check("chain", "MCBlockBlob.tla", "BlockBlob_memo_purged_%s.cfg" % fam, timeout=900)
+        r = ctx.tlc_check("chain", "MCBlockBlob.tla", "BlockBlob_reorg_many.cfg", timeout=1800, coverage=True)
+        vlib.require_actions_covered(r)
+        ctx.tlc_check("chain", "MCBlockBlob.tla", "BlockBlob_reorg_thorough.cfg", timeout=3000)
     if thorough:
         ctx.tlc_check("chain", "MCBlockBlob.tla", "BlockBlob_wide.cfg", timeout=1800)
         r = ctx.tlc_check("chain", "MCBlockBlob.tla", "BlockBlob_deep.cfg", timeout=1800, coverage=True)
@@ -50,7 +74,7 @@ def run(ctx):
         ctx.tlc_check("chain", "MCBlockBlob.tla", "BlockBlob_thorough.cfg", timeout=3000)
 
     nruns = 6 if thorough else 1
-    depth = 5 * (250 if thorough else 120)          # 5 states per behaviour (4 stores + emit)
+    depth = 12 * (110 if thorough else 50)          # ~12 states per behaviour (7 stores, 3 reverts, restarts, emit)
     behaviours = []
     for i in range(nruns):
         behaviours += ctx.tlc_simulate("chain", "BlockBlobMBT.tla", "BlockBlob_sim.cfg", depth=depth,
@@ -58,18 +82,52 @@ def run(ctx):
     kinds = set()
     sizes = set()
     restarts = set()
+    reorg = set()       # vacuity of the reorg dimension: which re-inclusion patterns the behaviours contain
     for b in behaviours:
+        where = {}      # hash -> (height, index) it was last stored at
+        height = -1
+        prev = None
         for st in b:
-            if st["a"]["name"] != "Store":
-                restarts.add(st["a"].get("graceful"))
-                continue
-            sizes.add(st["a"]["size"])
-            for k, e, r in zip(st["a"]["kinds"], st["a"]["evs"], st["a"]["revs"]):
-                kinds.add((k, e, r))
+            a = st["a"]
+            if a["name"] == "Restart":
+                restarts.add(a.get("graceful"))
+                if prev == "Revert":
+                    reorg.add("restart-inside-reorg")
+            elif a["name"] == "Revert":
+                reorg.add("revert-after-reads" if st.get("read", True) else "revert-then-write-without-reads")
+                if prev == "Revert":
+                    reorg.add("depth>=2")
+                if height == 0:
+                    reorg.add("whole-chain-reverted")
+                height -= 1
+            else:
+                height += 1
+                sizes.add(a["size"])
+                for k, e, r in zip(a["kinds"], a["evs"], a["revs"]):
+                    kinds.add((k, e, r))
+                for i, src in enumerate(a.get("src", [])):
+                    h = tuple(src) if src[0] == "tx" else ("tx", a["ver"], i)
+                    if src[0] == "tx":
+                        was = where[h]
+                        reorg.add("same-height-other-index" if was[0] == height and was[1] != i else
+                                  "same-place" if was == (height, i) else "other-height")
+                        if a["kinds"][i] == "l1handler":
+                            reorg.add("l1handler-reincluded")
+                    where[h] = (height, i)
+                if st["view"]["gone"]["txs"]:
+                    reorg.add("dropped-transaction")
+                if any(t["l1"] != "na" for t in st["view"]["gone"]["txs"]):
+                    reorg.add("dropped-l1handler")
+            prev = a["name"]
     if len({k for k, _, _ in kinds}) < 10 or sizes != {0, 1, 2, 3}:
         raise vlib.Broken("generated behaviours do not cover all ten transaction kinds and block sizes 0..3")
     if restarts != {True, False}:
         raise vlib.Broken("generated behaviours contain no graceful and ungraceful restart between stores")
+    need = {"revert-after-reads", "revert-then-write-without-reads", "depth>=2", "same-height-other-index", "other-height",
+            "dropped-transaction", "l1handler-reincluded", "dropped-l1handler", "restart-inside-reorg"}
+    if need - reorg:
+        raise vlib.Broken("generated behaviours lack reorg patterns: %s" % sorted(need - reorg))
+    ctx.coverage["reorg_patterns"] = sorted(reorg)
     res = ctx.run_engine(binary, "TestAccessorsReplay",
                          {"seed": 0, "start": 0, "behaviours": behaviours, "concurrent": True, "large": True,
                           "backends": ["memory", "pebblev2", "memory-poisoned"]},
@@ -93,9 +151,10 @@ def run(ctx):
     return ctx.finish(
         "model_checking",
         "exhaustive TLC on BlockBlob.tla (block sizes 0..3 x all encoded-length combinations x statuses; chains of "
-        "2 blocks) + TLC simulation chains of 4 blocks (sizes 0..3, ten transaction kinds, 0..3 events, both statuses) "
-        "concretised and stored on memory and pebblev2, both state backends; every accessor compared for every "
-        "(block, index, hash); distinct non-trivial case = one (transaction kind, event count, status) item shape "
+        "2 blocks; RevertHead + replacement blocks re-including reverted transactions) + TLC simulation chains of 4 "
+        "blocks with 3 RevertHead (sizes 0..3, ten transaction kinds, 0..3 events, both statuses; replacement blocks "
+        "drawing from the reverted transactions) concretised and stored / reverted on memory and pebblev2, both state "
+        "backends; every accessor compared for every (block, index, hash) incl. dropped hashes; distinct non-trivial case = one (transaction kind, event count, status) item shape "
         "or (block size, protocol version) stored and read back through all access paths",
         {"distinct_nontrivial": int(ctx.coverage.get("distinct_item_shapes", 0)),
          "evaluations": int(ctx.coverage.get("accessor_calls_compared", 0))})
